@@ -153,7 +153,15 @@ impl<R: BufRead + Seek + Position> ReadValue for ValueReader<R> {
         // A length that does not fit in an `i64` would wrap around to a
         // backwards seek. It certainly exceeds the length of the stream.
         let offset = i64::try_from(len).map_err(|_| ProtobufError::new(ErrorKind::Eof))?;
-        self.inner.seek_relative(offset)?;
+
+        // Seeking past the end of a stream succeeds, so seek to the last
+        // skipped byte and read it, in order to report an error if the skipped
+        // range extends beyond the end of the stream.
+        if offset > 0 {
+            self.inner.seek_relative(offset - 1)?;
+            let mut last = [0; 1];
+            self.inner.read_exact(&mut last)?;
+        }
         Ok(())
     }
 
@@ -250,14 +258,23 @@ impl<R: BufRead> Position for ReadPos<R> {
 /// This is used for reading embedded messages for example.
 pub(crate) struct LimitReader<'a, R: ReadValue> {
     inner: &'a mut R,
-    end: u64,
+
+    /// Offset of the end of the readable range, or `None` if the reader
+    /// extends to the end of the underlying stream.
+    end: Option<u64>,
 }
 
 impl<'a, R: ReadValue> LimitReader<'a, R> {
+    /// Create a reader which reads up to the end of `inner`.
+    pub fn unbounded(inner: &'a mut R) -> Self {
+        Self { end: None, inner }
+    }
+
     /// Create a reader which reads up to `len` bytes of `inner`.
+    #[cfg(test)]
     pub fn new(inner: &'a mut R, len: u64) -> Self {
         Self {
-            end: inner.position().saturating_add(len),
+            end: Some(inner.position().saturating_add(len)),
             inner,
         }
     }
@@ -265,14 +282,17 @@ impl<'a, R: ReadValue> LimitReader<'a, R> {
     /// Create a sub-reader which reads up to `len` bytes of this reader.
     pub fn sub_limit(&mut self, len: u64) -> LimitReader<'_, R> {
         LimitReader {
-            end: self.inner.position().saturating_add(len),
+            end: Some(self.inner.position().saturating_add(len)),
             inner: self.inner,
         }
     }
 
-    fn check_has_bytes(&self, len: usize) -> Result<(), ProtobufError> {
-        match self.position().checked_add(len as u64) {
-            Some(end) if end <= self.end => Ok(()),
+    /// Check that `len` bytes can be read without going past the end of this
+    /// reader.
+    pub fn check_has_bytes(&self, len: u64) -> Result<(), ProtobufError> {
+        match (self.position().checked_add(len), self.end) {
+            (Some(_), None) => Ok(()),
+            (Some(end), Some(limit)) if end <= limit => Ok(()),
             _ => Err(ProtobufError::new(ErrorKind::Eof)),
         }
     }
@@ -296,14 +316,22 @@ impl<'a, R: ReadValue> ReadValue for LimitReader<'a, R> {
     fn read_varint(&mut self) -> Result<u64, ProtobufError> {
         // Varints are at least 1 byte long, and can be up to 10.
         self.check_has_bytes(1)?;
-        self.inner.read_varint()
+        match self.inner.read_varint() {
+            // The stream ended before the end of a length-delimited field.
+            // Callers treat `Eof` as the end of the field, so report this as
+            // a different error.
+            Err(err) if self.end.is_some() && matches!(err.kind(), ErrorKind::Eof) => {
+                Err(std::io::Error::from(std::io::ErrorKind::UnexpectedEof).into())
+            }
+            result => result,
+        }
     }
 
     fn read_bytes(
         &mut self,
         len: usize,
     ) -> Result<<Self::Types as FieldTypes>::Bytes, ProtobufError> {
-        self.check_has_bytes(len)?;
+        self.check_has_bytes(len as u64)?;
         let bytes = self.inner.read_bytes(len)?;
         Ok(bytes)
     }
@@ -312,13 +340,13 @@ impl<'a, R: ReadValue> ReadValue for LimitReader<'a, R> {
         &mut self,
         len: usize,
     ) -> Result<<Self::Types as FieldTypes>::String, ProtobufError> {
-        self.check_has_bytes(len)?;
+        self.check_has_bytes(len as u64)?;
         let string = self.inner.read_string(len)?;
         Ok(string)
     }
 
     fn skip(&mut self, len: usize) -> Result<(), ProtobufError> {
-        self.check_has_bytes(len)?;
+        self.check_has_bytes(len as u64)?;
         self.inner.skip(len)?;
         Ok(())
     }
